@@ -599,6 +599,15 @@ impl LineBuf {
 	pub fn set_cursor_clamp(&mut self, yn: bool) {
 		self.cursor.exclusive = yn;
 	}
+	/// Put the cursor where normal mode can have it: on a character, not on the terminator of a non-empty line
+	pub fn settle_normal_cursor(&mut self) {
+		self.set_cursor_clamp(true);
+		self.cursor.set(self.cursor.get());
+		if self.grapheme_at_cursor().is_some_and(|gr| gr == "\n")
+			&& self.grapheme_before_cursor().is_some_and(|gr| gr != "\n") {
+				self.cursor.sub(1);
+		}
+	}
 	pub fn read_cursor_byte_pos(&self) -> usize {
 		self.read_idx_byte_pos(self.cursor.get())
 	}
@@ -3985,6 +3994,9 @@ impl LineBuf {
 				edit.start_merge();
 			}
 		}
+
+		// The clamp may have been switched on by a mode change while the cursor sat past the last character
+		self.cursor.set(self.cursor.get());
 
 		if self.grapheme_at_cursor().is_some_and(|gr| gr == "\n")
 			&& self.grapheme_before_cursor().is_some_and(|gr| gr != "\n")
